@@ -6,7 +6,9 @@
 //   * every transition is executed twice on fresh replays and the two observation digests must match
 //     (replay determinism) before any verdict is believed; observation happens on a separate replay from the one
 //     used for the canonical key, because observing fills lazy caches;
-//   * fixpoint (frontier exhausted below the depth cap) => the result holds for histories of any length.
+//   * fixpoint (frontier exhausted below the depth cap) => the result holds for histories of any length;
+//   * independently of the key, ALL histories of length <= full_depth are executed (no de-duplication), which protects
+//     against hidden state the canonical key does not know about.
 //
 // World interface:
 //   int nops() const; bool enabled(int op) const; void apply(int op); std::string opname(int op) const;
@@ -24,7 +26,7 @@ inline std::vector<int> hist_parse(const std::string &s) { std::vector<int> h; s
 struct BfsResult { long states = 0, transitions = 0; int depth = 0; bool fixpoint = false; };
 
 template <class Make>
-BfsResult bfs(Ctx &c, const std::string &tag, Make make, int max_depth, long max_states = 2000000) {
+BfsResult bfs(Ctx &c, const std::string &tag, Make make, int max_depth, int full_depth = 3, long max_states = 2000000) {
   typedef decltype(make()) W;
   BfsResult R;
   auto build = [&](const std::vector<int> &h) { W w = make(); for (int op : h) w->apply(op); return w; };
@@ -69,7 +71,12 @@ BfsResult bfs(Ctx &c, const std::string &tag, Make make, int max_depth, long max
       else if (!m2.empty()) c.st.violate(unit, tag + ": after [" + describe(h2) + "]: " + m2);
       if (R.transitions % 97 == 1) c.st.sample(tag + ": [" + describe(h2) + "]", 8);
       if (at_cap) { if (!seen.count(hash_str(key))) R.fixpoint = false; continue; }
-      if (seen.insert(hash_str(key)).second) { ++R.states; c.st.seen(tag + "#" + key); if (h2.size() >= 2) ++c.st.nontrivial; frontier.push_back(h2); }
+      // Histories shorter than full_depth are ALWAYS extended, whatever their key: the key lists the private members known when
+      // the harness was written, so state kept in a member added by a later change would be invisible to it; below full_depth the
+      // exploration is therefore exhaustive over histories with no abstraction at all.
+      const bool fresh_key = seen.insert(hash_str(key)).second;
+      if (!fresh_key && (int)h2.size() < full_depth) { frontier.push_back(h2); continue; }
+      if (fresh_key) { ++R.states; c.st.seen(tag + "#" + key); if (h2.size() >= 2) ++c.st.nontrivial; frontier.push_back(h2); }
     }
   }
   return R;
